@@ -1087,3 +1087,7 @@ V('v07.s1', 'C07', 'S', None, 'skip code renumbered consistently on both sides',
   (FORTRAN, 'FORTRAN_TEMPLATE', 'integer :: numerical_error_skip = 22', 'integer :: numerical_error_skip = 25'),
   (FORTRAN, f'{FE_}.solve', "elif error_code == 22 and errors == 'skip':", "elif error_code == 25 and errors == 'skip':"),
   (FORTRAN, f'{FE_}.solve_t', "elif error_code == 22 and errors == 'skip':", "elif error_code == 25 and errors == 'skip':"))
+V('v08.16', 'C08', 'F', 'C08.R3', 'movement computed over the submodels only (seeded C08/1)',
+  (LINKERS, LT, 'diff = {k: current_values[k] - previous_values[k] for k in current_values}', 'diff = {k: current_values[k] - previous_values[k] for k in submodels}'))
+V('v08.s3', 'C08', 'S', None, 'movement computed over previous_values.keys()',
+  (LINKERS, LT, 'diff = {k: current_values[k] - previous_values[k] for k in current_values}', 'diff = {k: current_values[k] - previous_values[k] for k in previous_values.keys()}'))
